@@ -75,7 +75,7 @@ func LoadProgram(repo, moduleDir string, patterns []string, extraSpecs []string)
 		return nil, fmt.Errorf("package load errors: %s", strings.Join(p.loadErrs, "; "))
 	}
 	p.pkgs = pkgs
-	prog, spkgs := ssautil.Packages(pkgs, ssa.InstantiateGenerics)
+	prog, spkgs := ssautil.Packages(pkgs, ssa.InstantiateGenerics|ssa.GlobalDebug)
 	p.ssaProg = prog
 	for _, sp := range spkgs {
 		if sp == nil {
